@@ -8,6 +8,8 @@ import (
 	"math/rand/v2"
 	"reflect"
 	"strings"
+	"sync"
+	"sync/atomic"
 	"time"
 
 	eb "github.com/jilio/ebu"
@@ -22,6 +24,7 @@ type Opts struct {
 	Streams    bool
 	Zones      bool // timestamps in named / unnamed / odd zones
 	SecondsZone bool // zone offsets that are not a whole number of minutes
+	Concurrent  int  // up to 1+Concurrent goroutines append concurrently at the start of some runs
 	NoHugeNumbers bool // no number literals beyond float64 (the third-party durable-streams test server rejects them)
 }
 
@@ -294,9 +297,105 @@ func (d *Driver) Load(s int, sub string) {
 	d.emit(map[string]any{"e": "load", "s": sname(s), "sub": sub, "tok": string(tok)})
 }
 
+// ConcurrentAppends lets several goroutines append to store s at the same time.  The appends are
+// recorded afterwards in the order in which the store holds them (read back with one full chain of reads),
+// each with the offset its Append returned; gt is false if the offsets do not increase along the log or if
+// the log order contradicts real time (an Append that had returned before another one was called must
+// come first).
+func (d *Driver) ConcurrentAppends(s int, workers, per int, o Opts) {
+	type rec struct {
+		id        int
+		tok       string
+		call, ret int64
+		err       error
+	}
+	var clock atomic.Int64
+	recs := make([]rec, workers*per)
+	evs := make([]*eb.Event, workers*per)
+	for i := range recs {
+		id := d.nextID
+		d.nextID++
+		doc := map[string]any{"id": id, "v": d.richJSON(1)}
+		data, _ := json.Marshal(doc)
+		evs[i] = &eb.Event{Type: typeNames[d.rnd.IntN(len(typeNames))], Data: data, Timestamp: d.timestamp(o)}
+		d.wants[id] = want{evs[i].Type, data, evs[i].Timestamp}
+		recs[i].id = id
+	}
+	var wg sync.WaitGroup
+	for w := 0; w < workers; w++ {
+		wg.Add(1)
+		go func(w int) {
+			defer wg.Done()
+			for k := 0; k < per; k++ {
+				i := w*per + k
+				recs[i].call = clock.Add(1)
+				off, err := d.env.Stores[s].Append(context.Background(), evs[i])
+				recs[i].ret = clock.Add(1)
+				recs[i].tok, recs[i].err = string(off), err
+			}
+		}(w)
+	}
+	wg.Wait()
+	byID := map[int]*rec{}
+	for i := range recs {
+		if recs[i].err != nil {
+			d.fail("append", s, recs[i].err)
+			return
+		}
+		byID[recs[i].id] = &recs[i]
+	}
+	// read the log back (chain of unlimited reads from the greatest token known before this phase)
+	from := d.maxTok[s]
+	var order []int
+	for guard := 0; guard < 1000; guard++ {
+		got, next, err := d.env.Stores[s].Read(context.Background(), eb.Offset(from), 0)
+		if err != nil {
+			d.fail("read", s, err)
+			return
+		}
+		if len(got) == 0 {
+			break
+		}
+		for _, e := range got {
+			var doc struct{ ID int `json:"id"` }
+			json.Unmarshal(e.Data, &doc)
+			order = append(order, doc.ID)
+		}
+		from = string(next)
+	}
+	seen := map[int]bool{}
+	var maxRetCallBefore int64 // the latest call stamp among the appends placed so far
+	for _, id := range order {
+		r, ok := byID[id]
+		if !ok || seen[id] {
+			continue
+		}
+		seen[id] = true
+		gt := d.napp[s] == 0 || strings.Compare(r.tok, d.maxTok[s]) > 0
+		if r.ret < maxRetCallBefore {
+			gt = false // it had returned before an append placed earlier in the log was even called
+		}
+		if r.call > maxRetCallBefore {
+			maxRetCallBefore = r.call
+		}
+		d.maxTok[s] = r.tok
+		d.napp[s]++
+		d.remember(s, r.tok, false)
+		d.emit(map[string]any{"e": "append", "s": sname(s), "id": id, "tok": r.tok, "gt": gt, "concurrent": true})
+	}
+	for i := range recs { // appends the store acknowledged but does not hold
+		if !seen[recs[i].id] {
+			d.emit(map[string]any{"e": "error", "op": "append", "s": sname(s), "msg": fmt.Sprintf("acknowledged append %d (offset %s) is not in the log", recs[i].id, recs[i].tok)})
+		}
+	}
+}
+
 // RunRandom performs a random operation sequence.
 func (d *Driver) RunRandom(o Opts) {
 	d.noHuge = o.NoHugeNumbers
+	if o.Concurrent > 0 && d.rnd.IntN(3) == 0 {
+		d.ConcurrentAppends(d.rnd.IntN(len(d.env.Stores)), 2+d.rnd.IntN(o.Concurrent), 1+d.rnd.IntN(6), o)
+	}
 	subs := []string{"sub-a", "sub-b", "под писка"}
 	for i := 0; i < o.Ops; i++ {
 		s := d.rnd.IntN(len(d.env.Stores))
